@@ -37,9 +37,9 @@ def attribute_stub(name: str, typ: V) -> R:
     return inst("AttributeStub", name=K(name), typ=typ)
 
 
-def class_stub(name: str, functions: List[R], attributes: List[R] = ()) -> R:  # type: ignore[assignment]
+def class_stub(name: str, functions: List[R], attributes: List[R] = (), nested: List[R] = ()) -> R:  # type: ignore[assignment]
     return inst("ClassStub", name=K(name), function_stubs=R("dict", items=tuple((f.fields["name"], f) for f in functions)),
-                attribute_stubs=R("list", items=tuple(attributes)))
+                attribute_stubs=R("list", items=tuple(attributes)), class_stubs=R("dict", items=tuple((c.fields["name"], c) for c in nested)))
 
 
 def module_stub(functions: List[R], classes: List[R], imports: R, typed_dicts: List[R] = ()) -> R:  # type: ignore[assignment]
